@@ -238,7 +238,7 @@ def gen(ch, tier):
 
 def plan(tier):
     if tier == "quick":
-        return {"exhaustive": [(i, 4) for i in range(4)], "streams": {"main": 3000, "joint": 800}, "shards": 16, "exhaustive_is_complete": True,
+        return {"exhaustive": [(i, 4) for i in range(4)], "streams": {"main": 6000, "joint": 2000}, "shards": 16, "exhaustive_is_complete": True,
                 "exhaustive_note": "the single-agent trajectory files shipped under tests/ read by the library and by the independent reader"}
     return {"exhaustive": [(i, 4) for i in range(4)], "streams": {"main": 40000, "joint": 12000}, "shards": 16, "exhaustive_is_complete": True,
             "exhaustive_note": "the shipped single-agent trajectory files"}
